@@ -28,6 +28,7 @@ def c2(ctx):
 
 def c3(ctx):
     notes.grouping_order(ctx)
+    notes.grouping_guards(ctx)
 
 
 def c4(ctx):
@@ -35,9 +36,20 @@ def c4(ctx):
     records.rebuild_site(ctx, f, "simfile.notes.group.NoteWithTail", 1, "head", {"tail_beat": "tail.beat"}, "joined head")
 
 
+def sweep(ctx):
+    """thorough: option forwarding over the whole package; every enum comparison is a judged chain or recorded."""
+    fwd.fwd_options(ctx, list(fwd.OPTIONS), floor=30)
+    records.enum_census(ctx, {("simfile.notes.group:group_notes.join_head_to_tail", "orphaned_tail"), ("simfile.notes.group:group_notes.join_head_to_tail", "orphaned_head"),
+                                ("simfile.notes.group:group_notes.add_row", "same_beat_notes"), ("simfile.notes.group:ungroup_notes.check_orphan", "orphaned_notes"),
+                                ("simfile.notes.timed:time_notes", "unhittable_notes"), ("simfile.convert:_should_copy_property", "behavior")})
+
+
+sweep.thorough_only = True
+
 CLAUSES = [
     ("C09.1", "option dispatch is total (R-ENUM)", c1),
     ("C09.2", "counting functions are the documented instantiations (R-FWD, R-TABLE, R-CLONE)", c2),
     ("C09.3", "nothing buffered is lost; the type filter precedes both branches (R-ORDER)", c3),
     ("C09.4", "a joined head keeps its fields (R-REBUILD)", c4),
+    ("C09.sweep", "package-wide option forwarding and enum-dispatch census (thorough)", sweep),
 ]
